@@ -1,5 +1,6 @@
 //@file src/lib.rs
 //@harness c02_enabled_twin strength=complete bound="all 6 thresholds x 5 levels (full domain), loop-free" timeout=300 body=body_enabled
+//@harness c02_log_header_conformance strength=complete bound="every comparison clause of headers/log.rs on its full domain (6x5 cross pairs in both directions, 6x6 and 5x5 same-type pairs; ==, <, <=, >, >=), loop-free" timeout=300 body=body_header
 // ConfiguredLogger::enabled(level) <=> threshold admits level (twin of the Verus contract; also the conformance check
 // of headers/log.rs against the real `log` crate). (A Kani twin of max_log_level on a 4-node tree was tried: CBMC does not finish in 400 s because of hashbrown; removed.)
 #[cfg(any(kani, verif_replay))]
@@ -21,6 +22,28 @@ mod __verif_c02 {
         __verif_ob!("enabled#post enabled iff the threshold admits the level", r == (lv <= lf));
         std::mem::forget(node);
     }
+
+    // conformance of the contract header headers/log.rs with the real `log` crate: every clause there says "compare by rank"
+    pub(crate) fn body_header(src: &mut Src) {
+        let a = src.u8(); assume(a <= 5);
+        let b = src.u8(); assume(b <= 5);
+        let (fa, fb) = (filt(a), filt(b));
+        __verif_ob!("headers/log.rs LevelFilter vs LevelFilter compares by rank", (fa > fb) == (a > b) && (fa >= fb) == (a >= b) && (fa < fb) == (a < b) && (fa <= fb) == (a <= b) && (fa == fb) == (a == b));
+        if a >= 1 && b >= 1 {
+            let (la, lb) = (lvl(a), lvl(b));
+            __verif_ob!("headers/log.rs Level vs Level compares by rank", (la > lb) == (a > b) && (la >= lb) == (a >= b) && (la < lb) == (a < b) && (la <= lb) == (a <= b) && (la == lb) == (a == b));
+        }
+        if b >= 1 {
+            let lb = lvl(b);
+            __verif_ob!("headers/log.rs LevelFilter vs Level compares by rank", (fa > lb) == (a > b) && (fa >= lb) == (a >= b) && (fa < lb) == (a < b) && (fa <= lb) == (a <= b) && (fa == lb) == (a == b));
+            __verif_ob!("headers/log.rs Level vs LevelFilter compares by rank", (lb > fa) == (b > a) && (lb >= fa) == (b >= a) && (lb < fa) == (b < a) && (lb <= fa) == (b <= a) && (lb == fa) == (b == a));
+        }
+        __verif_ob!("headers/log.rs std::cmp::max on LevelFilter returns the more verbose one", rank(std::cmp::max(fa, fb)) == if b >= a { b } else { a });
+    }
+
+    #[cfg(kani)]
+    #[kani::proof]
+    fn c02_log_header_conformance() { let mut src = Src::new(); body_header(&mut src); }
 
     #[cfg(kani)]
     #[kani::proof]
